@@ -377,6 +377,7 @@ static void init_growth_docs() {
         {"deep-40", DT + deep + "<e a40='m'/>" + deepEnd},
         {"namespaces-40", "<r" + nsdecl + "><p3:x p39:y='1' xmlns:p3='urn:other'/><p0:z/></r>"},
         {"attributes-120", "<r" + many + "><c b5='x' b119='y'/></r>"},
+        {"attributes-110-other-root", "<q" + many.substr(0, many.find(" b110=")) + "/>"},
         {"ids-70", DT + "<r>" + ids + "<r k='i3'/></r>"},
         {"small", "<r><e/></r>"},
     };
